@@ -1033,17 +1033,17 @@ func (fr *Frame) makeInterface(at ssa.Instruction, x *Val, from types.Type, st *
 		if _, isMap := from.Underlying().(*types.Map); isMap && x.T != nil {
 			c.sc.assert(tImp(tAnd(reach, tNot(tEq(x.T, tNull))), tEq(tApp(SInt, "dyntype", x.T), c.typeID(from))))
 		}
-		return &Val{T: x.T, Typ: at.(ssa.Value).Type(), Clo: x.Clo}
+		return &Val{T: x.T, Typ: at.(ssa.Value).Type(), Clo: x.Clo, Boxed: from}
 	}
 	if ok {
 		b, _ := fr.boxFun(from, s)
-		return scalar(tApp(SV, b, x.T), at.(ssa.Value).Type())
+		return &Val{T: tApp(SV, b, x.T), Typ: at.(ssa.Value).Type(), Boxed: from}
 	}
 	// struct value in an interface: a fresh object holding a copy
 	r := c.alloc(st, fr.fn.Name()+"_boxed", reach)
 	c.sc.assert(tImp(reach, tEq(tApp(SInt, "dyntype", r), c.typeID(from))))
 	c.storeObj(st, r, from, x)
-	return scalar(r, at.(ssa.Value).Type())
+	return &Val{T: r, Typ: at.(ssa.Value).Type(), Boxed: types.NewPointer(from)}
 }
 
 func (fr *Frame) execTypeAssert(i *ssa.TypeAssert, st *State, reach *Term) {
